@@ -90,6 +90,7 @@ def chunks(tier):
     t = _tier(tier)
     out = [("R", a, b) for a in range(9) for b in range(9)]
     out.append(("S1",))
+    out.append(("Z",))
     out += [("H", i) for i in range(len(POOL3))]
     n = len(t["pool"])
     out += [("S", i, j) for i in range(n) for j in range(i + 1, n)]
@@ -346,8 +347,9 @@ def _check_system(res, idxs, rts, S, pairs, specs=SPECS, only=None):
             F, cf = feed_of(vkind, S)
             fvars = dict(variables, fr=F, **{"fc_" + s: cf[s] for s in S})
             ok = True
-            for feed in ("off", "all", "one"):
-                fed = [] if feed == "off" else (list(order) if feed == "all" else [order[0]])
+            for feed in ("off", "all", "one", "rev", "last"):
+                # "rev": the feed mapping written in the reverse of the substance order; "last": only the last substance fed
+                fed = {"off": [], "all": list(order), "one": [order[0]], "rev": list(order)[::-1], "last": [order[-1]]}[feed]
                 exp_all = M.system_rates(rts, kmodel, conc, order, (F, {s: cf[s] for s in fed}) if fed else None)
                 for given in (True, False):
                     kw = {}
@@ -558,6 +560,12 @@ def run_chunk(chunk, tier):
         res.sample(dict(layer="H", reaction=_rt_str(POOL3[chunk[1]], "k"), params=[str(x) for x in HIST_K]))
     elif chunk[0] == "R":
         _run_R(res, chunk, tier)
+    elif chunk[0] == "Z":
+        for za in range(len(ZORD)):
+            for zb in range(len(ZORD)):
+                for kmode, vkind in (("float", "float"), ("sym", "sym"), ("named", "float"), ("int", "sym")):
+                    _check_orders(res, za, zb, kmode, vkind)
+        res.sample(dict(layer="Z", orders=[str(z) for z in ZORD], example="A + 0 B -> C and 1/2 B -> C: c**0 == 1, c**(1/2)"))
     elif chunk[0] == "S1":
         for i in range(len(t["pool"])):
             _run_combo(res, (i,), t)
@@ -573,9 +581,79 @@ def run_chunk(chunk, tier):
     return res
 
 
+# ------------------------------------------------------------------------------------------------- layer Z
+# active orders at and below one: an explicit coefficient 0 (c**0 == 1: the substance takes no part), 1/2, 3/2 next to 1, 2
+ZORD = [0, Fr(1, 2), 1, Fr(3, 2), 2]
+ZCONC = dict(A=4.0, B=9.0, C=25.0)  # perfect squares: every half-integer power is an exact float
+
+
+def _check_orders(res, za, zb, kmode, vkind):
+    """Reaction({A: a, B: b} -> C) for every pair of orders in ZORD: Reaction.rate and a one-reaction ReactionSystem.rates"""
+    import sympy
+    from chempy import Reaction, ReactionSystem
+
+    a, b = ZORD[za], ZORD[zb]
+    res.states += 1
+    res.transitions += 1
+    if a == 0 and b == 0:
+        return
+    res.nontrivial += 1
+    S = "ABC"
+    conc = dict(ZCONC) if vkind == "float" else {s: _sym(s) for s in S}
+    kparam, kmodel, extra = kparam_and_model(kmode, vkind, 3)
+    variables = dict(conc, **extra)
+    r = kmodel
+    for s_, nu in (("A", a), ("B", b)):
+        if nu != 0:
+            r = r * (conc[s_] ** (float(nu) if vkind == "float" else sympy.Rational(nu.numerator, nu.denominator) if isinstance(nu, Fr) else nu))
+    exp = {"A": -a * r, "B": -b * r, "C": r}
+    exp = {k: (v if not isinstance(v, Fr) else float(v)) for k, v in exp.items()}
+    case = dict(layer="Z", za=za, zb=zb, kmode=kmode, vkind=vkind)
+    for form in ("float", "Fraction"):
+        co = {"A": a, "B": b}
+        co = {k: (float(v) if form == "float" and isinstance(v, Fr) else v) for k, v in co.items()}
+        if form == "Fraction" and not any(isinstance(v, Fr) for v in co.values()):
+            continue
+        try:
+            rxn = Reaction(dict(co), {"C": 1}, kparam, checks=[c for c in Reaction.default_checks if c != "all_integral"])
+            got = rxn.rate(dict(variables))
+            got2 = ReactionSystem([rxn], S, checks=()).rates(dict(variables))
+        except Exception as e:
+            got = got2 = "EXC %s: %s" % (type(e).__name__, e)
+        for api, g in (("Reaction.rate", got), ("ReactionSystem.rates", got2)):
+            res.evaluations += 1
+            ok = isinstance(g, dict) and all(_zsame(g.get(k_, 0), v) for k_, v in exp.items()) and all(k_ in exp for k_ in g)
+            res.outcomes["%s orders (%s, %s) %s" % ("ok" if ok else "WRONG", a, b, api)] += 1
+            if not ok:
+                k = "C03|%s|order<=1|k=%s" % (api, kmode)
+                res.violation(k, "Reaction(%r, {'C': 1}, %r) %s(%s) = %s, model %s (rate = k*A**%s*B**%s)" % (co, kparam, api, _show(variables), _show(g), _show(exp), a, b),
+                              dict(case, expect_key=k), _show(g), _show(exp))
+
+
+def _zsame(got, exp):
+    import sympy
+
+    try:
+        if isinstance(got, sympy.Basic) or isinstance(exp, sympy.Basic):
+            d = sympy.simplify(sympy.nsimplify(sympy.sympify(got) - sympy.sympify(exp), rational=True))
+            if d == 0:
+                return True
+            sub = {sym: 4 ** (i + 1) for i, sym in enumerate(sorted(d.free_symbols, key=str))}
+            return abs(float(d.subs(sub))) <= 1e-9 * (1 + abs(float(sympy.sympify(exp).subs(sub))))
+        return abs(float(got) - float(exp)) <= 1e-12 * max(abs(float(got)), abs(float(exp)), 1e-300)
+    except Exception:
+        return False
+
+
 # ------------------------------------------------------------------------------------------------- replay
 def replay(case):
     res = Result()
+    if case["layer"] == "Z":
+        _check_orders(res, case["za"], case["zb"], case["kmode"], case["vkind"])
+        for v in res.violations:
+            if v["key"] == case.get("expect_key"):
+                return dict(key=v["key"], what=v["what"], observed=v["observed"], expected=v["expected"])
+        return None
     if case["layer"] == "H" and case["seq"] == ["reorder"]:
         _check_reorder(res, case["i"])
     elif case["layer"] == "H":
